@@ -23,6 +23,8 @@ import (
 	"path/filepath"
 	"sort"
 	"strings"
+	"sync"
+	"syscall"
 	"testing"
 	"time"
 
@@ -248,7 +250,48 @@ type c13Outputs struct {
 }
 
 // c13RunCommands runs the report and encode commands on files.
-func c13RunCommands(R *ev.Run, dir, tag string, files []string, n int) c13Outputs {
+// c13Fifos: inputs that are named pipes (path -> the bytes a writer feeds into it for every command run).
+type c13Fifos map[string][]byte
+
+// feed starts one writer per pipe and returns a function that makes sure they are gone again
+// (a command that never opens the pipe would leave the writer blocked in open).
+func (ff c13Fifos) feed() (stop func()) {
+	var wg sync.WaitGroup
+	for path, data := range ff {
+		path, data := path, data
+		wg.Add(1)
+		go func() {
+			defer wg.Done()
+			w, err := os.OpenFile(path, os.O_WRONLY, 0)
+			if err != nil {
+				return
+			}
+			w.Write(data)
+			w.Close()
+		}()
+	}
+	return func() {
+		done := make(chan struct{})
+		go func() { wg.Wait(); close(done) }()
+		for {
+			select {
+			case <-done:
+				return
+			case <-time.After(200 * time.Millisecond):
+				// nobody read the pipe: open it ourselves so that the writer can finish
+				for path := range ff {
+					if r, err := os.OpenFile(path, os.O_RDONLY|syscall.O_NONBLOCK, 0); err == nil {
+						time.Sleep(20 * time.Millisecond)
+						io.Copy(io.Discard, r)
+						r.Close()
+					}
+				}
+			}
+		}
+	}
+}
+
+func c13RunCommands(R *ev.Run, dir, tag string, files []string, n int, fifos ...c13Fifos) c13Outputs {
 	o := c13Outputs{encoded: map[string][]vegeta.Result{}, encErr: map[string]string{}, fail: map[string]string{}}
 	run := func(name string, f func(out string) error) []byte {
 		out := filepath.Join(dir, tag+"-"+name+".out")
@@ -261,6 +304,9 @@ func c13RunCommands(R *ev.Run, dir, tag string, files []string, n int) c13Output
 				}
 			}()
 			R.Trans(1)
+			if len(fifos) > 0 && len(fifos[0]) > 0 {
+				defer fifos[0].feed()()
+			}
 			err = f(out)
 		}()
 		if err != nil {
@@ -478,9 +524,25 @@ func TestC13(t *testing.T) {
 		names := make([]string, j.k)
 		files := make([]string, j.k)
 		mixed, unequal := false, false
+		fifos := c13Fifos{}
 		for i := range files {
 			names[i] = c13Encs[j.e[i]]
-			files[i] = filepath.Join(dir, fmt.Sprintf("s%d-f%d.%s", ci, i, names[i]))
+			// file names: the first one plain, the others with glob metacharacters chosen so that "f[0]" would
+			// match the first file's name if a name were ever treated as a pattern; the encoding is detected, so
+			// all carry the same extension
+			files[i] = filepath.Join(dir, fmt.Sprintf("s%d-f0.bin", ci))
+			if i > 0 {
+				files[i] = filepath.Join(dir, fmt.Sprintf("s%d-f[%d].bin", ci, i-1))
+			}
+			if i == j.k-1 && j.k >= 2 && ci%5 == 0 {
+				// every fifth split reads its last input from a named pipe (size 0 for stat, yet it carries records)
+				if err := syscall.Mkfifo(files[i], 0o600); err == nil {
+					fifos[files[i]] = enc[names[i]][masks[i]]
+					mixed = mixed || j.e[i] != j.e[0]
+					unequal = unequal || c13Popc(masks[i]) != c13Popc(masks[0])
+					continue
+				}
+			}
 			if err := os.WriteFile(files[i], enc[names[i]][masks[i]], 0o644); err != nil {
 				panic(err)
 			}
@@ -492,7 +554,10 @@ func TestC13(t *testing.T) {
 				os.Remove(f)
 			}
 		}()
-		o := c13RunCommands(R, dir, fmt.Sprintf("s%d", ci), files, j.n)
+		if len(fifos) > 0 {
+			R.Part("command", "with-a-named-pipe-input", 1)
+		}
+		o := c13RunCommands(R, dir, fmt.Sprintf("s%d", ci), files, j.n, fifos)
 		ref := refs[j.n]
 		R.Eval(7)
 		R.Part("command", fmt.Sprintf("k=%d", j.k), 7)
